@@ -206,6 +206,13 @@ func (s SigSpec) Sign(priv any, digest []byte) ([]byte, error) {
 	return nil, fmt.Errorf("family")
 }
 
+// SignPSSSalt signs with RSASSA-PSS and an explicit salt length (rsa.PSSSaltLengthAuto = as long as the key allows, which
+// is what crypto/rsa, OpenSSL and others produce by default; rsa.PSSSaltLengthEqualsHash; or a number of bytes). All of
+// them are valid PSS signatures: the salt length is recovered from the encoding when verifying.
+func (s SigSpec) SignPSSSalt(priv *rsa.PrivateKey, digest []byte, salt int) ([]byte, error) {
+	return rsa.SignPSS(rand.Reader, priv, s.Hash, digest, &rsa.PSSOptions{SaltLength: salt})
+}
+
 // Verify verifies with the peer implementation.
 func (s SigSpec) Verify(pub any, digest, sig []byte) bool {
 	switch s.Family {
